@@ -1052,6 +1052,8 @@ func (w *world) finish(tr *vhlib.Trace, op string, pre string) {
 			f := strings.Split(p[1], ":")
 			atTip := len(f) > 1 && f[1] == "basis"+f[0]
 			switch {
+			case strings.Contains(p[1], "conflicts_wit"):
+				// an equivalent set of the host is still in the pool: harmless
 			case !atTip:
 				w.midRef[ci]++
 			case strings.Contains(p[1], ":fresh=ok:"):
